@@ -29,11 +29,25 @@ type aeEcoResult struct {
 
 // runAE analyses every ecosystem's Compare once per process (shared by C01, C03, C07, ...).
 func runAE(p *Prog) map[string]*aeEcoResult {
-	if p.aeResults != nil {
+	if p.aeResults != nil && len(p.aeResults) == len(p.Ecos) {
 		return p.aeResults
 	}
-	out := map[string]*aeEcoResult{}
 	for _, e := range p.Ecos {
+		runAEOne(p, e)
+	}
+	return p.aeResults
+}
+
+// runAEOne analyses one ecosystem's Compare (cached per process).
+func runAEOne(p *Prog, e *Eco) *aeEcoResult {
+	if p.aeResults == nil {
+		p.aeResults = map[string]*aeEcoResult{}
+	}
+	if er, ok := p.aeResults[e.Name]; ok {
+		return er
+	}
+	out := p.aeResults
+	{
 		c := newAECtx(p)
 		if e.Name == "alpm" {
 			// C01's only scoped exclusion: triples mixing versions with and without an explicit pkgrel
@@ -101,8 +115,7 @@ func runAE(p *Prog) map[string]*aeEcoResult {
 			}
 		}
 	}
-	p.aeResults = out
-	return out
+	return out[e.Name]
 }
 
 // stageTree lists the proven stages reachable from the given stage atoms.
